@@ -92,6 +92,9 @@ def catalogue(gen: int):
             (ext.ExtendedMessage(__import__("pyairtouch.at4.comms.x1FFF12_group_names", fromlist=["x"]).GroupNamesRequest(300)), ENC_BADWRITE),
             # a body longer than the 16-bit length field: fails when the HEADER is packed
             (ext.ExtendedMessage(ver.ConsoleVersionMessage(False, ["x" * 70000])), ENC_BADWRITE),
+            # requests whose argument is 0 (falsy): announced size and bytes written must still agree
+            (ext.ExtendedMessage(__import__("pyairtouch.at4.comms.x1FFF12_group_names", fromlist=["x"]).GroupNamesRequest(0)), ENC_OK),
+            (ext.ExtendedMessage(abil.AcAbilityRequest(0)), ENC_OK),
         ]
     import pyairtouch.at5.comms.x1F_ext as ext
     import pyairtouch.at5.comms.x1FFF30_console_ver as ver
@@ -132,6 +135,8 @@ def catalogue(gen: int):
         (ext.ExtendedMessage(abil.AcAbilityRequest(300)), ENC_BADWRITE),
         (ext.ExtendedMessage(__import__("pyairtouch.at5.comms.x1FFF13_zone_names", fromlist=["x"]).ZoneNamesRequest(300)), ENC_BADWRITE),
         (ext.ExtendedMessage(ver.ConsoleVersionMessage(False, ["x" * 70000])), ENC_BADWRITE),
+        (ext.ExtendedMessage(__import__("pyairtouch.at5.comms.x1FFF13_zone_names", fromlist=["x"]).ZoneNamesRequest(0)), ENC_OK),
+        (ext.ExtendedMessage(abil.AcAbilityRequest(0)), ENC_OK),
     ]
 
 
